@@ -6,7 +6,7 @@ from . import helpers_rules as H
 from . import round3 as R3
 
 META = {
-    'claim_added': "Also decided: sweeten/savorize hook symmetry (same own-definition test, same ancestor walk); default stripping agrees with loading (R05.7) and matches() compares text with the default itself, bool arms by polarity; yatiml leaves PyYAML's alias bookkeeping alone; the seasoning transforms are all-or-nothing (R15.2, sharing the C15 known findings). Round 3: the tag written for a type is accepted by that type's recogniser only (R05.11; string-like / Path objects referenced twice are a known finding), the YAML dump sites pass no emitter options (R12.1), recognition is a pure trial (R05.13). Round 6: R05.17 - a dump-side walk that refuses self-containing values keeps the discipline of the loader's cycle check (cross-check of siblings). Round 6 (E14): caches on the code this property is about are invisible - no value that lives in a memo cell (dict / lazily filled attribute / lru_cache) is modified by the code it is handed to, the key of a cell contains every input its value depends on, no mutable parameter default is modified or handed out; given that, the program is analysed as if every lookup missed.",
+    'claim_added': "Also decided: sweeten/savorize hook symmetry (same own-definition test, same ancestor walk); default stripping agrees with loading (R05.7) and matches() compares text with the default itself, bool arms by polarity; yatiml leaves PyYAML's alias bookkeeping alone; the seasoning transforms are all-or-nothing (R15.2, sharing the C15 known findings). Round 3: the tag written for a type is accepted by that type's recogniser only (R05.11; string-like / Path objects referenced twice are a known finding), the YAML dump sites pass no emitter options (R12.1), recognition is a pure trial (R05.13). Round 6: R05.17 - a dump-side walk that refuses self-containing values keeps the discipline of the loader's cycle check (cross-check of siblings). Round 6 (E14): caches on the code this property is about are invisible - no value that lives in a memo cell (dict / lazily filled attribute / lru_cache) is modified by the code it is handed to, the key of a cell contains every input its value depends on, no mutable parameter default is modified or handed out; given that, the program is analysed as if every lookup missed. Round 11: the dump side keeps nothing between calls (R05.19/R05.20: no write into the Representer / Dumper objects that live as long as the dump function) - the round trip must hold for the n-th object dumped, not only for the first.",
     'level': 'other',
     'technique': 'static: DFA language inclusion between the Dumper\'s and the Loader\'s implicit-resolver tables; reference '
                  'regex of PyYAML\'s scalar representers against the loader language; decision-list agreement of the two '
